@@ -68,7 +68,7 @@ func isLeaderCheckFn(h *H, f *ssa.Function) bool {
 		if !isRet {
 			return
 		}
-		c, isC := ret.Results[0].(*ssa.Const)
+		c, isC := ir.ReturnValues(ret)[0].(*ssa.Const)
 		if !isC || !c.IsNil() {
 			return
 		}
